@@ -35,6 +35,9 @@ def path_contents(rng, thorough):
     for k, times in ((200, 6), (128, 10), (256, 5)):
         b1, b2 = encgen.flat_then_skew(rng, k, times)
         add('flat-then-skew-%d' % k, b1 + b2)
+    for k, times in ((200, 6), (180, 7), (230, 5)):
+        b1, b2 = encgen.flat_then_flat(rng, k, times)
+        add('flat-then-flat-%d' % k, b1 + b2)
     # > 128 distinct symbols (FSE-compressed weights or none), few symbols (direct weights)
     add('wide-alphabet', encgen.literals(rng, 40000, 'wide'))
     add('two-symbols', encgen.literals(rng, 5000, 'two'))
